@@ -799,9 +799,16 @@ pub fn generate(rng: &mut Rng, cfg: &GenCfg) -> ModuleSet {
                 value_names.push(format!("{}-v{}", vstem.trim_end_matches('-'), value_names.len()));
                 order.push((false, value_names.len() - 1));
             } else {
-                let style = rng.below(4);
+                let style = rng.below(5);
                 let i = type_names.len();
                 let nm = match style {
+                    // a name that EXTENDS an earlier name of the module (Ratio / RatioUnit, Cell /
+                    // Cell-Id): name-keyed bookkeeping that works on prefixes or substrings trips here
+                    4 if !type_names.is_empty() => {
+                        let prev: &String = &type_names[rng.below(type_names.len())];
+                        let cand = format!("{prev}{}", ["Unit", "X", "-Ext", "s", "0"][rng.below(5)]);
+                        if type_names.contains(&cand) { format!("{stem}Z{i}") } else { cand }
+                    }
                     0 => format!("{stem}{i}"),
                     1 => format!("{stem}-Type{i}"),
                     2 => format!("{stem}T{i}x"),
